@@ -217,6 +217,20 @@ def run(ctx: Ctx, tier: str) -> Result:
 
     # ---- loader shape
     lp = ctx.prog.func("deep.api.plugin.load_plugins")
+    # a plugin is built from the configuration *by name*: the interface's constructor is (name, config) while the metric plugins'
+    # is (config) - only `config=` means the same for all of them (given positionally the base class takes it for the name, and
+    # the plugin's switch is then looked up on nothing)
+    pinit0 = ctx.prog.func("deep.api.plugin.Plugin.__init__")
+    for lf in [f_ for f_ in ctx.prog.functions.values() if f_.module.name == "deep.api.plugin" and f_.cls is None]:
+        for c_ in ctx.types.calls_in(lf):
+            tg_ = ctx.types.resolve_call(c_, lf)
+            if tg_.unknown and isinstance(c_.func, ast.Name) and not tg_.repo and not tg_.ext and (c_.args or c_.keywords) and \
+                    any(norm(a_) == "config" or norm(a_) == P(lf, 0).lstrip("@") for a_ in list(c_.args) + [k_.value for k_ in c_.keywords]):
+                if c_.args or not any(k_.arg == "config" for k_ in c_.keywords):
+                    res.fail(Finding("C20.LOAD", lf.qname, c_, lf.loc(c_), "`%s` hands the configuration to the plugin class by position: Plugin.__init__ is (name, config), so a plugin "
+                                     "using the base constructor gets no configuration, reads its PLUGIN_<NAME> switch from None and can no longer be switched off" % norm(c_)[:40]))
+                else:
+                    res.ok("C20.LOAD", {"plugin constructed with config=": norm(c_)[:40]})
     appends = [c for c in ctx.types.calls_in(lp) if isinstance(c.func, ast.Attribute) and c.func.attr == "append"]
     need(appends, "load_plugins: no append of loaded plugin found")
     def _active_holds(node, f_):
@@ -378,7 +392,11 @@ def run(ctx: Ctx, tier: str) -> Result:
                 if not calls_:
                     continue
                 dflt = isinstance(e, ast.BoolOp) and isinstance(e.op, ast.Or) and e.values[0] is calls_[0] and isinstance(e.values[-1], ast.Constant) and isinstance(e.values[-1].value, int)
-                dflt = dflt or (isinstance(e, ast.IfExp)) or (isinstance(e, ast.Call) and isinstance(e.func, ast.Name) and e.func.id == "int" and not (e.args and e.args[0] is calls_[0]))
+                dflt = dflt or (isinstance(e, ast.IfExp))
+                if isinstance(e, ast.Call) and isinstance(e.func, ast.Name) and e.func.id in ("int", "round", "abs", "bool"):
+                    res.fail(Finding("C20.LOAD", kf.qname, e, kf.loc(e), "the sort key is `%s`, not the declared order itself: orders that differ (0.2 / 0.7, -0.5 / 0) are made equal and "
+                                     "the plugins fall back to configuration order" % norm(e)[:50]))
+                    continue
                 guarded = ctx.guards.catching_try(c, lp, "TypeError") is not None
                 if dflt or guarded:
                     res.ok("C20.LOAD", {"an order() of None sorts as a number": norm(e)[:50]})
@@ -401,6 +419,25 @@ def run(ctx: Ctx, tier: str) -> Result:
             res.fail(Finding("C20.LOAD", m2.qname, n_, m2.loc(n_), "`%s` gets a new value here but `self.%s`, which %s fills from it and consults first, is left as it is: after a "
                              "second start the plugins of the first one (switched off or shut down since) are still the ones that are called" % (norm(n_), k_, m_.name)))
     res.ok("C20.LOAD", {"no memo of an instance field survives its reassignment (configuration classes)": nmemo})
+    # what is remembered is stored complete: an entry put into a shared field and filled in afterwards is seen half-filled by a
+    # second thread asking at that moment (its hit runs only some of the active plugins)
+    from .common import _MUTATORS
+    for c_ in ctx.prog.classes.values():
+        if not c_.module.name.startswith("deep.config"):
+            continue
+        for m_ in [m for lst in c_.methods.values() for m in lst if m.name != "__init__"]:
+            for n_ in ctx.types.nodes_in(m_, ast.Assign):
+                shared_t = [tg for tg in n_.targets if isinstance(tg, ast.Subscript) and isinstance(tg.value, ast.Attribute) and isinstance(tg.value.value, ast.Name)
+                            and tg.value.value.id == "self"]
+                if not shared_t:
+                    continue
+                names_ = [tg.id for tg in n_.targets if isinstance(tg, ast.Name)] + ([n_.value.id] if isinstance(n_.value, ast.Name) else [])
+                for nm_ in names_:
+                    later = [x for x in ctx.types.calls_in(m_) if isinstance(x.func, ast.Attribute) and x.func.attr in _MUTATORS and isinstance(x.func.value, ast.Name)
+                             and x.func.value.id == nm_ and x.lineno > n_.lineno]
+                    if later:
+                        res.fail(Finding("C20.LOAD", m_.qname, later[0], m_.loc(later[0]), "`%s` goes on filling `%s` after it was stored in `%s`, a field every thread reads: a thread asking "
+                                         "meanwhile gets the half-filled list and runs only some of the active plugins for its hit" % (norm(later[0])[:40], nm_, norm(shared_t[0])[:40])))
     from .common import unsound_memos
     for c_ in ctx.prog.classes.values():
         if not c_.module.name.startswith("deep.config"):
